@@ -8,7 +8,7 @@ line protocol (one line in, one line out):
   crash <E> <rot> <comp> <ret> <K> <J> <call>*     file sink; E = "~" (no file) or token of the existing content;
                                                    K calls return, then J primitives of call K+1 run, then the process dies
         -> ok <pending> <file>*                    files on disk, oldest first
-  stream <hasFlush> <lineBufferingAttr> <writeThrough> <lineBuffered> <K> <call>*   stream sink over a user stream
+  stream <hasFlush> <hasStaticFlush> <lineBufferingAttr> <writeThrough> <lineBuffered> <K> <call>*   stream sink over a user stream
                                                    (what it exposes; how its file really buffers); dies after K calls
         -> ok <pending> <os>
   exitf <enq> <owner> <rot> <comp> <ret> <Q> <call>*       one file handler, the last Q calls still queued at interpreter exit
@@ -73,13 +73,13 @@ def step (line : String) : String :=
         | [] => s
       "ok " ++ encTok s.pendingText ++ " " ++ encList s.disk
     | _, _, _, _, _, _, _ => "bad-op"
-  | "stream" :: fl :: lba :: wt :: lb :: k :: rest =>
-    match bit fl, bit lba, bit wt, bit lb, k.toNat?, parseCalls Gen.streamTerminator rest with
-    | some fl, some lba, some wt, some lb, some k, some calls =>
-      let s0 : Stream := StreamSink.new { os := [], pending := [], lineBuffering := lb, closed := false } fl lba wt
+  | "stream" :: fl :: sfl :: lba :: wt :: lb :: k :: rest =>
+    match bit fl, bit sfl, bit lba, bit wt, bit lb, k.toNat?, parseCalls Gen.streamTerminator rest with
+    | some fl, some sfl, some lba, some wt, some lb, some k, some calls =>
+      let s0 : Stream := StreamSink.new { os := [], pending := [], lineBuffering := lb, closed := false } fl sfl lba wt
       let s := ((calls.take k).map (·.2)).foldl Stream.sinkWrite s0
       "ok " ++ encTok s.file.pending ++ " " ++ encTok s.file.crash
-    | _, _, _, _, _, _ => "bad-op"
+    | _, _, _, _, _, _, _ => "bad-op"
   | "exitf" :: enq :: own :: rot :: comp :: ret :: q :: rest =>
     match bit enq, bit own, bit rot, bit comp, bit ret, q.toNat?, parseCalls Gen.fileTerminator rest with
     | some enq, some own, some rot, some comp, some ret, some q, some calls =>
@@ -100,7 +100,7 @@ def step (line : String) : String :=
     match bit enq, bit own, bit fl, bit stoppable, q.toNat?, parseCalls Gen.streamTerminator rest with
     | some enq, some own, some fl, some stoppable, some q, some calls =>
       let q := if enq then min q calls.length else 0
-      let s0 : Stream := StreamSink.new { os := [], pending := [], lineBuffering := false, closed := false } fl false false
+      let s0 : Stream := StreamSink.new { os := [], pending := [], lineBuffering := false, closed := false } fl fl false false
       let h : Handler := atExit enq own q calls (.stream s0 stoppable 0)
       let lg := interpreterExit { handlers := [h], removed := [] }
       let h' := match lg.removed, lg.handlers with
